@@ -88,7 +88,7 @@ NonZeroArea(G) ==
 (* NormalSide: a supplied vertex normal n points to the outer side of an   *)
 (* incident face: n . ((b - a) x (c - a)) > 0.  Only the sign matters.     *)
 (* The edge vectors are taken at full resolution and, only when a triangle *)
-(* is large, both are divided by the same power of two so that their       *)
+(* is large, each is divided by its own power of two so that their         *)
 (* components stay within 2^10 (a relative perturbation of the edge        *)
 (* directions below 2^-9): cross components <= 2^21, normals are expected  *)
 (* scaled to |n| <= 2^8, the dot product stays below 3 * 2^29.  (A first   *)
@@ -99,10 +99,22 @@ MaxAbs3(p) == MaxI(AbsI(p[1]), MaxI(AbsI(p[2]), AbsI(p[3])))
 RECURSIVE ShiftFor(_, _)
 ShiftFor(m, d) == IF m \div d <= 1024 THEN d ELSE ShiftFor(m, 2 * d)
 RDiv(x, d) == (x + d \div 2) \div d
-FaceNormalSmall(g) ==
-    LET e1 == VSub(g[2], g[1])
+\* Only the SIGN of n . (e1 x e2) is asked for, and it does not change when e1 and e2 are divided by
+\* DIFFERENT positive numbers: each edge is scaled by its own power of two.  (With one common divisor
+\* the short edge of a needle triangle - the pole fan of a 4 x 5462 sphere: 13 units against 12 500 -
+\* was rounded to zero and the face lost its normal: a false alarm of the resolution ladder, round 5.)
+\* ... and the corner the two edges start from is an end of the SHORTEST edge (a cyclic rotation keeps the
+\* orientation): the two long edges of a needle are parallel to within the rounding, its short edge and
+\* one long edge are not.
+EdgeLen(g, k) == MaxAbs3(VSub(g[(k % 3) + 1], g[k]))
+Rot(g, k) == <<g[k], g[(k % 3) + 1], g[((k + 1) % 3) + 1]>>
+FromShortest(g) == Rot(g, CHOOSE k \in 1..3 : \A j \in 1..3 : EdgeLen(g, k) <= EdgeLen(g, j))
+FaceNormalSmall(g0) ==
+    LET g == FromShortest(g0)
+        e1 == VSub(g[2], g[1])
         e2 == VSub(g[3], g[1])
-        d == ShiftFor(MaxI(MaxAbs3(e1), MaxAbs3(e2)), 1)
-    IN Cross(<<RDiv(e1[1], d), RDiv(e1[2], d), RDiv(e1[3], d)>>, <<RDiv(e2[1], d), RDiv(e2[2], d), RDiv(e2[3], d)>>)
+        d1 == ShiftFor(MaxAbs3(e1), 1)
+        d2 == ShiftFor(MaxAbs3(e2), 1)
+    IN Cross(<<RDiv(e1[1], d1), RDiv(e1[2], d1), RDiv(e1[3], d1)>>, <<RDiv(e2[1], d2), RDiv(e2[2], d2), RDiv(e2[3], d2)>>)
 NormalSide(g, n) == Dot(n, FaceNormalSmall(g)) > 0
 =============================================================================
